@@ -74,6 +74,10 @@ correspondence run, `blockon` ops). -/
 theorem block_on_output {α : Type} (f : Fut α) : blockOn f = some f.out :=
   blockOnFuel_spec f _ (Nat.lt_succ_self _)
 
+/-- **T1**: the decisive source lines still have the shape the model's rules were written from
+(regenerated from /repo by tools/spans/rt.py on every check) -/
+theorem source_shape : sourceShapeC10 = true := by decide
+
 /-! ### non-vacuity -/
 
 /-- five commands, the third is `Stop`; the runner received two executes, one task has started -/
